@@ -4,7 +4,7 @@ package sim
 // check (DESIGN.md section 4). Weights are relative; every run draws its own
 // subset and scaling (swarm).
 
-var faultKinds = []string{"bad", "idxtype", "keyupdate", "batchbad", "toggle", "poke", "chase", "drop", "clear", "idxdrop", "idxcreate", "create"}
+var faultKinds = []string{"keyextra", "batchpartial", "bad", "idxtype", "keyupdate", "batchbad", "toggle", "poke", "chase", "drop", "clear", "idxdrop", "idxcreate", "create"}
 
 func base(prop string) *Profile {
 	return &Profile{Prop: prop, MinClients: 1, MaxClients: 2, MaxTables: 2, MinIdx: 0, MaxIdx: 2, RangeProb: 0.6, KeyStyle: "plain",
@@ -19,6 +19,7 @@ func ProfileFor(prop string) *Profile {
 	switch prop {
 	case "C01":
 		p.MaxIdx = 1
+		p.AltKeyStyles, p.AltKeyProb = []string{"adversarial", "numeric"}, 0.3
 		w["put"], w["update"], w["delete"], w["get"] = 4, 4, 3, 3
 		w["putcond"], w["updcond"], w["delcond"] = 0.4, 0.4, 0.4
 		w["bad"], w["idxtype"], w["toggle"], w["scan"] = 0.3, 0.2, 0.1, 0.3
@@ -27,12 +28,12 @@ func ProfileFor(prop string) *Profile {
 		p.RangeProb = 0.8
 		w["put"], w["update"], w["delete"], w["get"] = 4, 2, 1.5, 0.5
 		w["query"], w["scan"] = 5, 3
-		w["idxtype"], w["bad"], w["clear"], w["idxcreate"], w["idxdrop"] = 0.2, 0.2, 0.1, 0.2, 0.1
+		w["idxtype"], w["bad"], w["clear"], w["idxcreate"], w["idxdrop"] = 0.2, 0.2, 0.4, 0.3, 0.1
 	case "C03":
 		p.MinIdx, p.MaxIdx = 1, 3
 		w["put"], w["update"], w["delete"], w["get"] = 4, 5, 3, 0.5
 		w["query"], w["scan"], w["describe"] = 1, 1, 0.5
-		w["clear"], w["idxcreate"], w["idxdrop"] = 0.3, 0.6, 0.3
+		w["clear"], w["idxcreate"], w["idxdrop"] = 0.5, 0.6, 0.3
 		w["idxtype"] = 0.2
 	case "C04":
 		p.MaxIdx = 3
@@ -50,15 +51,18 @@ func ProfileFor(prop string) *Profile {
 		p.MinIdx, p.MaxIdx = 0, 3
 		w["put"], w["update"], w["delete"], w["get"] = 3, 3, 2, 0.5
 		w["bad"], w["idxtype"], w["keyupdate"], w["batchbad"], w["batchw"] = 4, 2.5, 0.5, 1, 1
+		w["batchpartial"], w["keyextra"] = 1.5, 0.4
 		w["putcond"], w["updcond"], w["delcond"] = 0.8, 0.8, 0.8
 		w["toggle"] = 0.3
 		p.FaultFree = 0.1
 	case "C13":
 		p.KeyStyle = "adversarial"
+		p.AltKeyStyles, p.AltKeyProb = []string{"numeric"}, 0.25
 		p.RangeProb = 0.8
 		p.MaxIdx = 2
 		w["put"], w["update"], w["delete"], w["get"] = 4, 3, 3, 3
 		w["bad"], w["keyupdate"], w["scan"], w["query"] = 2, 2, 0.5, 0.5
+		w["keyextra"] = 2
 		w["updcond"], w["delcond"] = 0.3, 0.3
 	case "C14":
 		p.Retain = true
@@ -83,8 +87,8 @@ func ProfileFor(prop string) *Profile {
 		w["query"], w["scan"], w["batchw"], w["batchg"], w["transact"] = 2, 1.5, 1, 0.7, 0.2
 		w["putcond"], w["updcond"], w["delcond"] = 0.7, 0.7, 0.7
 		w["describe"], w["create"], w["drop"], w["clear"], w["idxcreate"], w["idxdrop"] = 1, 0.4, 0.3, 0.3, 0.3, 0.2
-		w["toggle"], w["open"], w["resume"] = 0.4, 0.5, 1.2
-		w["idxtype"], w["bad"] = 0.2, 0.4
+		w["toggle"], w["open"], w["resume"] = 0.9, 0.5, 1.2
+		w["idxtype"], w["bad"], w["batchbad"], w["batchpartial"] = 0.2, 0.4, 0.4, 0.3
 	case "C18":
 		p.MinClients, p.MaxClients = 2, 2
 		p.MaxTables = 3
@@ -99,7 +103,7 @@ func ProfileFor(prop string) *Profile {
 		p.MaxIdx = 2
 		w["batchw"], w["batchg"] = 5, 3
 		w["put"], w["update"], w["delete"], w["get"] = 2, 1, 1, 0.5
-		w["batchbad"], w["idxtype"] = 0.3, 0.1
+		w["batchbad"], w["idxtype"], w["batchpartial"] = 0.3, 0.1, 0.4
 	default:
 		return nil
 	}
